@@ -117,7 +117,8 @@ func getMessage(typ byte) Message {
 	case messageTypeNodeStatus:
 		return &NodeStatus{}
 	default:
-		panic(fmt.Sprintf("unknown message type %d", typ))
+		// The type byte comes off the wire: the caller reports an error.
+		return nil
 	}
 }
 
